@@ -10,6 +10,7 @@ import InToto.Proofs.Rules
 import InToto.Proofs.RulesMore
 import InToto.Proofs.RulesItems
 import InToto.Proofs.RulesAllNames
+import InToto.Proofs.RulesAllNames2
 
 namespace InToto.C03
 open InToto InToto.Rules InToto.RulesSpec InToto.RulesProofs InToto.RulesItems
@@ -208,5 +209,68 @@ theorem outcome_is_outcome_on_cleaned_links (glob : Str → Str → Bool) (items
 theorem all_items_verified_iff_spec_all_names (glob : Str → Str → Bool) (items : List Item) (ctx : Ctx) :
     (verifyArtifacts glob items ctx).isOk = true ↔ ∀ item ∈ items, ItemOK glob (RulesAllNames.cleanCtx ctx) item :=
   RulesAllNames.all_items_verified_iff_spec_all_names glob items ctx
+
+/-- C03 AT THE LEVEL OF `VerifyArtifacts`, one item, ALL names: the item is accepted exactly when it
+    meets the specification on the cleaned links; the links are handed back as they came -/
+theorem item_verified_iff_spec_all_names (glob : Str → Str → Bool) (ctx : Ctx) (item : Item) :
+    (∀ ctx', verifyItem glob ctx item = .ok ctx' → ctx' = ctx) ∧
+    ((verifyItem glob ctx item).isOk = true ↔ ItemOK glob (RulesAllNames.cleanCtx ctx) item) :=
+  RulesAllNames.verifyItem_spec_all_names glob ctx item
+
+/-- C03, ALL names: a rule that fits none of the formats is an error wherever it stands in the
+    material or the product rules of an item — never silently skipped: the item is not accepted,
+    whatever the links (with or without a link for the item), the other rules and the artifacts;
+    and `VerifyArtifacts` does not accept any item list that contains such an item -/
+theorem malformed_rule_is_error_all_names (glob : Str → Str → Bool) (ctx : Ctx) (item : Item)
+    (bad : List Str) (e : String) (hb : unpackRule bad = .err e)
+    (hm : bad ∈ item.expMaterials ∨ bad ∈ item.expProducts) :
+    (verifyItem glob ctx item).isOk = false ∧
+    ∀ items : List Item, item ∈ items → (verifyArtifacts glob items ctx).isOk = false :=
+  ⟨RulesAllNames.verifyItem_malformed glob ctx item bad e hb hm,
+   fun items hi => RulesAllNames.verifyArtifacts_malformed glob items ctx item hi bad e hb hm⟩
+
+/-- C03 (and C10), ALL names: the verdict does not depend on the order of the items -/
+theorem item_order_irrelevant_all_names (glob : Str → Str → Bool) (items₁ items₂ : List Item) (ctx : Ctx)
+    (hp : items₁.Perm items₂) :
+    (verifyArtifacts glob items₁ ctx).isOk = (verifyArtifacts glob items₂ ctx).isOk :=
+  RulesAllNames.verifyArtifacts_perm_all_names glob items₁ items₂ ctx hp
+
+/-- C03, EVERY link: created / deleted / modified, as `VerifyArtifacts` computes them (from the
+    cleaned copy `cleanLink l` of the item's own link), are what their names say about the two
+    cleaned artifact maps -/
+theorem difference_sets_exact_all_names (l : LinkArts) (a : Str) :
+    (a ∈ createdOf (cleanLink l) ↔
+      a ∈ artsKeys (cleanArts l.products) ∧ a ∉ artsKeys (cleanArts l.materials)) ∧
+    (a ∈ deletedOf (cleanLink l) ↔
+      a ∈ artsKeys (cleanArts l.materials) ∧ a ∉ artsKeys (cleanArts l.products)) ∧
+    (a ∈ modifiedOf (cleanLink l) ↔
+      a ∈ artsKeys (cleanArts l.materials) ∧ a ∈ artsKeys (cleanArts l.products) ∧
+        artsGet (cleanArts l.materials) a ≠ artsGet (cleanArts l.products) a) :=
+  RulesAllNames.difference_sets_all_names l a
+
+/-- What a cleaned name looks like.  `path.Clean` never returns the empty string, it is idempotent,
+    and its result is ".", "/", or a non-empty list of components — none empty, none ".", none
+    containing a slash — joined by single slashes (`joinSlash`; `splitSlash` gives them back), EITHER
+    behind one leading slash and then without any ".." component, OR without a leading slash and then
+    with ".." components only as a leading run. -/
+theorem clean_output_is_normal_form (p : Str) :
+    Path.clean p ≠ [] ∧
+    Path.clean (Path.clean p) = Path.clean p ∧
+    (Path.clean p = lit% "." ∨ Path.clean p = lit% "/" ∨
+      ∃ comps : List Str, comps ≠ [] ∧
+        (∀ c ∈ comps, c ≠ [] ∧ c ≠ lit% "." ∧ '/' ∉ c) ∧
+        ((Path.clean p = '/' :: Path.joinSlash comps ∧ Path.splitSlash (Path.clean p) = [] :: comps ∧
+            lit% ".." ∉ comps) ∨
+         (Path.clean p = Path.joinSlash comps ∧ Path.splitSlash (Path.clean p) = comps ∧
+            ∃ k rest, comps = List.replicate k (lit% "..") ++ rest ∧ lit% ".." ∉ rest))) :=
+  ⟨PathClean.clean_ne_nil p, PathClean.clean_idem p, PathClean.clean_form p⟩
+
+/-- … and that shape is exact: a name is a fixed point of `path.Clean` (equivalently, is returned by
+    `path.Clean` for some input) iff it has the shape `PathClean.CleanForm`, which is the third
+    conjunct of `clean_output_is_normal_form` -/
+theorem clean_normal_forms_are_the_fixed_points (q : Str) :
+    (Path.clean q = q ↔ PathClean.CleanForm q) ∧ ((∃ p, q = Path.clean p) ↔ PathClean.CleanForm q) :=
+  ⟨PathClean.clean_fixed_iff_form q,
+   (PathClean.clean_fixed_iff_range q).symm.trans (PathClean.clean_fixed_iff_form q)⟩
 
 end InToto.C03
